@@ -548,9 +548,9 @@ public:
     {
         using std::abs;
 
-        m_n = mat.rows();
-        if (m_n != mat.cols())
+        if (mat.rows() != mat.cols())
             throw std::invalid_argument("BKLDLT: matrix must be square");
+        m_n = mat.rows();
 
         m_perm.setLinSpaced(m_n, 0, m_n - 1);
         m_permc.clear();
